@@ -1,8 +1,9 @@
 """
 C10 — equality, copying and repr are coherent and total.
 
-Correspondence between the real `spec_classes` (`__eq__`, `__deepcopy__`, re-construction, `__repr__`
-of generated class families) and the Lean Impl model `SpecVerif.C10` (Drivers/C10.lean), plus an
+Correspondence between the real `spec_classes` (`__eq__`, `__deepcopy__`, the constructor `InitMethod.init`
+across the inheritance chain, re-construction through it, `__repr__` of generated class families) and the
+Lean Impl model `SpecVerif.C10` (Drivers/C10.lean), plus an
 independent oracle: attribute-wise reference comparison written from the property text and the
 equivalence-relation laws checked directly on the real results.
 """
@@ -18,6 +19,8 @@ REQUIRED_THEOREMS = [
     for n in (
         "eq_refl", "eq_symm", "eq_trans", "eq_iff", "differing_attr_noticed", "compare_false_ignored",
         "deepcopy_eq", "reconstruct_eq", "repr_total", "repr_lists_exactly",
+        "construct_eq_spec", "construct_shows_passed", "construct_shows_default", "construct_passed_equal",
+        "reconstruct_refines",
     )
 ]
 RULE = (
@@ -25,12 +28,17 @@ RULE = (
     "int/str/float/Optional/Union/Literal/List/Dict/Set of scalars/nested Child/List,Dict,KeyedList,KeyedSet of Child/"
     "Any holding bound methods (own, foreign), functions, classes, modules; no default, immutable, mutable, "
     "default_factory, Attr(...), dataclasses.field; compare=False, repr=False, init=False, do_not_copy; key; preparer; "
-    "invalidated_by; cached spec_property; spec subclass T(S), plain subclass P(S), second level U(T)/Q(T); lazy/eager) "
-    "rendered to source and exec'd, and a pool of instances (<= 12 quick, <= 40 thorough) reached by construction + "
-    "setattr/del/re-set, including for one base state a single-position mutant for EVERY attribute position, the same "
+    "invalidated_by; cached spec_property; spec subclass T(S), plain subclass P(S), second level U(T)/Q(T), a subclass "
+    "re-declaring an attribute or re-assigning only its default; every kind with its falsy values (0, False, '', None, "
+    "empty list/dict/set/KeyedList/KeyedSet) and truthy defaults; lazy/eager) "
+    "rendered to source and exec'd, and a pool of instances (<= 14 quick, <= 40 thorough in the all-pairs matrix) reached "
+    "through the constructor, by setattr, by with_<attr>, or a mix per attribute (+ del/re-set), including for one base "
+    "state a single-position mutant for EVERY attribute position, for EVERY class of the family an all-falsy state "
+    "reached through the constructor and its twin reached without it, the same "
     "values in every class of the family, missing values, extra __dict__ entries on one side, self-referential states and "
     "cycles closed through bound methods of OTHER pool instances (mutual subscription, ring of three, handlers in lists; "
     "repr only). Evaluated: ALL ordered pairs (==, !=), all triples (transitivity, on the real results), "
+    "what cls(**kwargs) shows attribute by attribute for the keyword arguments of every state, "
     "deepcopy(x)==x, type(x)(**own values)==x, repr(x) / compact repr / repr of a parent holding x. Non-trivial = a pair "
     "that is equal without being the same object, or differs in a compared attribute; distinct = distinct "
     "(class table, abstract states, result)."
@@ -40,8 +48,9 @@ OPEN_STATEMENTS = [
     "cyclic values are outside the equality/copy theorems (Python's == and the library's __deepcopy__ recurse on them); "
     "repr totality on them is the absence of a failing branch in the model + the per-run check that no repr form raises",
     "bound methods nested inside containers are outside deepcopy_eq (Python compares them by __self__ identity)",
-    "the model's input states are abstract states observed on the real instances; how a state is reached (constructor, "
-    "setattr, del) is not modelled here (C01-C09)",
+    "the model's input states are abstract states observed on the real instances; of the ways a state is reached only "
+    "the constructor is modelled here (setattr, with_<attr>, del: C01-C09); the init-overflow attribute, __post_init__ "
+    "and overridden parent constructors are outside the constructor model",
 ]
 ASSUMPTIONS = [
     "values are finite trees: equality theorems exclude cyclic values (DESIGN 10.5); repr includes self-references",
@@ -52,6 +61,9 @@ ASSUMPTIONS = [
     "attribute reads do not raise (no ill-typed spec_property getters, DESIGN 10.14); no NaN; floats are never integral",
     "re-construction is claimed for instances whose compared attributes are init-enabled with a value or still show "
     "what a fresh instance shows",
+    "constructor theorems: every init-enabled attribute is owned by the class whose constructor runs or by one of its "
+    "spec ancestors (`ownersOk`, evaluated by the driver on the class of every state and compared as part of `wf=`); an "
+    "explicitly passed MISSING counts as not passed; bool values are represented as the ints they equal",
 ]
 
 FN_IDS = {"S.meth": 0, "S.meth2": 1, "Helper.meth": 2, "Helper.other": 3}
@@ -63,15 +75,18 @@ FN_IDS = {"S.meth": 0, "S.meth2": 1, "Helper.meth": 2, "Helper.other": 3}
 
 # name -> (annotation, value descriptors, allowed default descriptors)
 POOL = {
+    # every kind has its FALSY member(s) (0, "", False, None, empty containers) among the values and a truthy
+    # default among the defaults, so that "a falsy value that differs from the default" occurs for each
     "i": ("int", [0, 1, 2], [0, 1]),
+    "b": ("bool", [False, True], [False, True]),
     "s": ("str", ["", "a", "b"], ["", "a"]),
     "f": ("float", [{"f": 0}, {"f": 1}], [{"f": 0}]),
-    "o": ("Optional[int]", [None, 1, 2], [None, 1]),
-    "u": ("Union[int, str]", [1, "a", 2], [1, "a"]),
+    "o": ("Optional[int]", [None, 0, 1, 2], [None, 1]),
+    "u": ("Union[int, str]", [1, "a", 2, 0, ""], [1, "a"]),
     "lt": ('Literal["x", "y"]', ["x", "y"], ["x"]),
-    "li": ("List[int]", [[], [1], [1, 2]], [[], [1]]),
-    "di": ("Dict[str, int]", [{"d": {}}, {"d": {"a": 1}}, {"d": {"a": 1, "b": 2}}], [{"d": {}}]),
-    "se": ("Set[int]", [{"set": []}, {"set": [1]}, {"set": [1, 2]}], [{"set": []}]),
+    "li": ("List[int]", [[], [1], [1, 2], [0]], [[], [1]]),
+    "di": ("Dict[str, int]", [{"d": {}}, {"d": {"a": 1}}, {"d": {"a": 1, "b": 2}}, {"d": {"": 0}}], [{"d": {}}, {"d": {"a": 1}}]),
+    "se": ("Set[int]", [{"set": []}, {"set": [1]}, {"set": [1, 2]}, {"set": [0]}], [{"set": []}, {"set": [1]}]),
     "ch": ("Optional[Child]", [None, {"child": ["c", 0]}, {"child": ["c", 1]}, {"child": [None, 0]}], [None]),
     "chs": ("List[Child]", [[], [{"child": ["a", 0]}], [{"child": ["a", 0]}, {"child": ["b", 1]}], [{"child": ["a", 1]}],
                             [{"child": [None, 0]}]], [[]]),
@@ -80,13 +95,15 @@ POOL = {
     "kl": ("KeyedList[Child, str]", [[], [{"child": ["a", 0]}], [{"child": ["a", 1]}], [{"child": ["a", 0]}, {"child": ["b", 0]}]], [[]]),
     "ks": ("KeyedSet[Child, str]", [{"set": []}, {"set": [{"child": ["a", 0]}]}, {"set": [{"child": ["a", 1]}]}], [{"set": []}]),
     "cb": ("Any", [None, {"bself": "meth"}, {"bself": "meth2"}, {"bound": [0, "meth"]}, {"bound": [1, "meth"]},
-                   {"bound": [0, "other"]}, {"fn": 0}, {"fn": 1}, {"cls": 0}, {"cls": 1}, {"mod": 0}, {"mod": 1}, 3], [None]),
-    "cb2": ("Any", [None, {"bself": "meth"}, {"bound": [0, "meth"]}, {"fn": 0}, {"mod": 0}, "a"], [None]),
-    "p": ("str", ["a", "b"], ["a"]),       # has a preparer (str.lower)
-    "iv": ("int", [0, 1], [0]),            # invalidated_by another attribute
+                   {"bound": [0, "other"]}, {"fn": 0}, {"fn": 1}, {"cls": 0}, {"cls": 1}, {"mod": 0}, {"mod": 1}, 3, 0, []],
+           [None, 3]),
+    "cb2": ("Any", [None, {"bself": "meth"}, {"bound": [0, "meth"]}, {"fn": 0}, {"mod": 0}, "a", ""], [None, "a"]),
+    "p": ("str", ["a", "b", ""], ["a"]),   # has a preparer (str.lower)
+    "iv": ("int", [0, 1], [0, 1]),         # invalidated_by another attribute
 }
 MUTABLE = {"li", "di", "se", "chs", "chd", "kl", "ks"}
-BASE_ATTRS = ["i", "s", "f", "o", "u", "lt", "li", "di", "se", "ch", "chs", "chd", "kl", "ks", "cb", "cb2", "p", "iv"]
+DNC_OK = MUTABLE | {"cb", "cb2"}
+BASE_ATTRS = ["i", "b", "s", "f", "o", "u", "lt", "li", "di", "se", "ch", "chs", "chd", "kl", "ks", "cb", "cb2", "p", "iv"]
 
 
 def setup():
@@ -161,6 +178,8 @@ def render(case):
             lines.append("@spec_class(%s)" % ", ".join(args) if args else "@spec_class")
         lines.append(f"class {c['name']}({c['base']}):" if c["base"] else f"class {c['name']}:")
         body = [render_attr(a) for a in c["attrs"]]
+        # an inherited attribute's DEFAULT re-assigned in the subclass body, without annotation (spec or plain class)
+        body += [f"{o['name']} = {py_value(o['default'])}" for o in c.get("overrides", [])]
         if not c["base"]:
             body += ["def meth(self): pass", "def meth2(self): pass",
                      "@spec_property(cache=True)\ndef cp(self): return 5"]
@@ -201,19 +220,25 @@ def class_ids(case):
 def attrs_of(case, cname):
     """Metadata order by the declaration-order convention: inherited first, then own."""
     if cname == "Child":
-        return [{"name": "name", "compare": True, "repr": True, "init": True, "dnc": False, "kind": "none"},
-                {"name": "v", "compare": True, "repr": True, "init": True, "dnc": False, "kind": "lit", "default": 0}]
+        return [{"name": "name", "compare": True, "repr": True, "init": True, "dnc": False, "kind": "none", "owner": "Child"},
+                {"name": "v", "compare": True, "repr": True, "init": True, "dnc": False, "kind": "lit", "default": 0,
+                 "owner": "Child"}]
     cdefs = {c["name"]: c for c in case["family"]["classes"]}
     c = cdefs[cname]
     inh = attrs_of(case, c["base"]) if c["base"] else []
     out = [dict(a) for a in inh]
     for a in c["attrs"] if c["spec"] else []:
         a = dict(a)
+        a["owner"] = cname          # `Attr.owner`: the spec class that annotated (declared / re-declared) it
         names = [x["name"] for x in out]
         if a["name"] in names:
             out[names.index(a["name"])] = a
         else:
             out.append(a)
+    for o in c.get("overrides", []):
+        # only the default changes (for instances of this class and below); owner and flags stay
+        a = next(x for x in out if x["name"] == o["name"])
+        a.update(kind="lit", default=o["default"], factory=False)
     if c["spec"]:
         # `do_not_copy` is per decorator: a spec subclass re-evaluates it for inherited attributes too
         for a in out:
@@ -284,15 +309,18 @@ def make_value(ns, v, holder=None):
 class Tokens:
     """Canonical prefix-notation tokens of real values (object identities renumbered by first appearance)."""
 
-    def __init__(self, case, ns):
+    def __init__(self, case, ns, copies_as_c=False):
         self.case, self.ns = case, ns
         self.ids = class_ids(case)
         self.owners = {}
+        self.copies_as_c = copies_as_c    # `new` lines: an owner that is not one of HELPERS is "a copy"
 
     def owner_id(self, obj):
         for i, h in enumerate(self.ns["HELPERS"]):
             if obj is h:
                 return i
+        if self.copies_as_c:
+            return "c"
         return self.owners.setdefault(id(obj), 100 + len(self.owners))
 
     def val(self, v, holder):
@@ -307,10 +335,8 @@ class Tokens:
             return ["N"]
         if v is holder:
             return ["SELF"]
-        if isinstance(v, bool):
-            raise ValueError(v)
-        if isinstance(v, int):
-            return [f"i{v}"]
+        if isinstance(v, int):      # bool included: `True == 1`, `False == 0` under Python's ==
+            return [f"i{int(v)}"]
         if isinstance(v, float):
             return [f"f{int(v - 0.5)}"]
         if isinstance(v, str):
@@ -361,7 +387,7 @@ def desc_tokens(case, v):
     if v is None:
         return ["N"]
     if isinstance(v, int):
-        return [f"i{v}"]
+        return [f"i{int(v)}"]
     if isinstance(v, str):
         return ["s" + v]
     if isinstance(v, list):
@@ -380,20 +406,34 @@ def desc_tokens(case, v):
 # ---------------------------------------------------------------------------
 
 
-def make_state(case, ns, st):
-    """Build the instance described by `st` on the real code."""
-    cls = ns[st["cls"]]
+def ctor_kwargs(case, st):
+    """Names of the attributes of `st` that CAN go through the constructor (init-enabled, value exists up front)."""
     attrs = {a["name"]: a for a in attrs_of(case, st["cls"])}
+    return [name for name, v in st["vals"].items()
+            if attrs[name]["init"] and not (isinstance(v, dict) and ("bself" in v or "self" in v or "selflist" in v))]
+
+
+def make_state(case, ns, st):
+    """Build the instance described by `st` on the real code. `st["via"]` says HOW each init-enabled attribute gets
+    its value: "ctor" (keyword argument of the constructor; the default), "set" (`setattr` on the constructed
+    instance) or "with" (`x = x.with_<attr>(value)`); the key attribute always goes through the constructor."""
+    cls = ns[st["cls"]]
+    via = st.get("via", {})
+    key = key_of(case, st["cls"])
+    through_ctor = ctor_kwargs(case, st)
     kwargs, later = {}, []
     for name, v in st["vals"].items():
-        special = isinstance(v, dict) and ("bself" in v or "self" in v or "selflist" in v)
-        if attrs[name]["init"] and not special:
+        how = via.get(name, "ctor") if name != key else "ctor"
+        if name in through_ctor and how == "ctor":
             kwargs[name] = make_value(ns, v)
         else:
-            later.append((name, v))
+            later.append((name, v, how if name in through_ctor else "set"))
     x = cls(**kwargs)
-    for name, v in later:
-        setattr(x, name, make_value(ns, v, x))
+    for name, v, how in later:
+        if how == "with":
+            x = getattr(x, "with_" + name)(make_value(ns, v, x))
+        else:
+            setattr(x, name, make_value(ns, v, x))
     for op in st.get("ops", []):
         if op[0] == "del":
             try:
@@ -431,7 +471,23 @@ def _is_peer(v):
 
 
 def eq_states(case):
-    return [i for i, st in enumerate(case["states"]) if not st.get("cyclic")]
+    """States that take part in the ALL-PAIRS comparison."""
+    return [i for i, st in enumerate(case["states"]) if not st.get("cyclic") and not st.get("solo")]
+
+
+def solo_states(case):
+    """States outside the all-pairs matrix (it is quadratic): compared with their twin only; deepcopy,
+    re-construction, constructor and repr are checked on them like on every other state."""
+    return [i for i, st in enumerate(case["states"]) if st.get("solo") and not st.get("cyclic")]
+
+
+def eq_pairs(case):
+    eqs = eq_states(case)
+    pairs = [(i, j) for i in eqs for j in eqs]
+    for i, st in enumerate(case["states"]):
+        if st.get("twin_of") is not None:
+            pairs += [(st["twin_of"], i), (i, st["twin_of"])]
+    return pairs
 
 
 _cache = {}
@@ -455,15 +511,18 @@ def lines(case):
         parent = "-" if cname == "Child" or not cdefs[cname]["base"] else str(ids[cdefs[cname]["base"]])
         k = key_of(case, cname)
         kidx = "-" if k is None else str([a["name"] for a in attrs].index(k))
-        toks = ["cls", str(ids[cname]), cname, parent, kidx, str(len(attrs))]
+        spec = "1" if cname == "Child" or cdefs[cname]["spec"] else "0"
+        toks = ["cls", str(ids[cname]), cname, parent, kidx, spec, str(len(attrs))]
         for a in attrs:
             flags = "".join("1" if a[f] else "0" for f in ("compare", "repr", "init", "dnc"))
-            toks += [f"{a['name']}:{flags}"] + desc_tokens(case, fresh_view(a))
+            toks += [f"{a['name']}:{flags}:{ids[a['owner']]}"] + desc_tokens(case, fresh_view(a))
         ml.append(" ".join(toks))
-        # the real metadata must list the same attributes in the same order with the same flags
+        # the real metadata must list the same attributes in the same order with the same flags and owners, and be
+        # the class's own exactly when the class is a spec class
         real = ns[cname].__spec_class__.attrs
-        same = [(n, s.compare, s.repr, s.init, s.do_not_copy) for n, s in real.items()] == [
-            (a["name"], a["compare"], a["repr"], a["init"], a["dnc"]) for a in attrs]
+        same = [(n, s.compare, s.repr, s.init, s.do_not_copy, s.owner.__name__) for n, s in real.items()] == [
+            (a["name"], a["compare"], a["repr"], a["init"], a["dnc"], a["owner"]) for a in attrs]
+        same = same and (("__spec_class__" in ns[cname].__dict__) == (spec == "1"))
         rl.append("ok" if same else "metadata-differs " + ",".join(real))
     insts = build_states(case, ns)
     for i, x in enumerate(insts):
@@ -486,10 +545,29 @@ def lines(case):
         except Exception as e:  # noqa: BLE001
             return f"raised {type(e).__name__}"
 
+    for i, j in eq_pairs(case):
+        ml.append(f"eq {i} {j}")
+        rl.append(guarded(lambda: "1" if insts[i] == insts[j] else "0"))
+    eqs = eqs + solo_states(case)
+    # the constructor itself: what `cls(**kwargs)` shows, for the keyword arguments of every state of the pool
+    # (whatever way the pool instance itself was reached)
+    tkc = Tokens(case, ns, copies_as_c=True)
     for i in eqs:
-        for j in eqs:
-            ml.append(f"eq {i} {j}")
-            rl.append(guarded(lambda: "1" if insts[i] == insts[j] else "0"))
+        st = case["states"][i]
+        names = ctor_kwargs(case, st)
+        attrs = attrs_of(case, st["cls"])
+        kw = {n: make_value(ns, st["vals"][n]) for n in names}
+        toks = ["new", str(ids[st["cls"]]), str(len(attrs))]
+        for a in attrs:
+            if a["name"] not in kw:
+                toks += ["_"]
+            elif isinstance(st["vals"][a["name"]], dict) and "set" in st["vals"][a["name"]]:
+                # (a KeyedSet value is handed over as a list of its items; the attribute holds them as a set)
+                toks += tkc.val(set(kw[a["name"]]) if isinstance(kw[a["name"]], list) else kw[a["name"]], None)
+            else:
+                toks += tkc.val(kw[a["name"]], None)
+        ml.append(" ".join(toks))
+        rl.append(guarded(lambda: " ".join(tkc.inst(ns[st["cls"]](**kw)))))
     for i in eqs:
         ml.append(f"dc {i}")
         rl.append(guarded(lambda: "1" if copy.deepcopy(insts[i]) == insts[i] else "0"))
@@ -535,6 +613,30 @@ def reconstruct_real(case, ns, x):
     except Exception as e:  # noqa: BLE001
         return reconstructible(case, ns, x), False
     return reconstructible(case, ns, x), same
+
+
+def describe_reconstruction(case, x):
+    """The failing input in words: the call and the attributes at which the result differs."""
+    from spec_classes import MISSING
+
+    try:
+        kwargs = {a["name"]: getattr(x, a["name"]) for a in attrs_of(case, type(x).__name__)
+                  if a["init"] and getattr(x, a["name"], MISSING) is not MISSING}
+        y = type(x)(**kwargs)
+        diff = [f"{a['name']}: original has {getattr(x, a['name'], MISSING)!r}, new instance {getattr(y, a['name'], MISSING)!r}"
+                for a in attrs_of(case, type(x).__name__) if a["compare"] and not ref_attr_eq(case, x, y, a["name"])]
+        bases = "(" + type(x).__mro__[1].__name__ + ")" if len(type(x).__mro__) > 2 else ""
+        return (f"{type(x).__name__}{bases}(**{kwargs!r}) differs at " + "; ".join(diff))[:600]
+    except Exception as e:  # noqa: BLE001
+        return f"{type(e).__name__} while describing"
+
+
+def meta_of(case, cname):
+    """The class whose constructor/metadata instances of `cname` use: itself if a spec class, else the nearest spec ancestor."""
+    cdefs = {c["name"]: c for c in case["family"]["classes"]}
+    while cname in cdefs and not cdefs[cname]["spec"]:
+        cname = cdefs[cname]["base"]
+    return cname
 
 
 def reconstructible(case, ns, x):
@@ -709,20 +811,21 @@ def oracle(case):
         return [f"building the family/states raised {type(e).__name__}: {e}"]
     eqs = eq_states(case)
     res = {}
-    for i in eqs:
-        for j in eqs:
-            try:
-                r = insts[i] == insts[j]
-                n = insts[i] != insts[j]
-            except Exception as e:  # noqa: BLE001
-                viol.append(f"state {i} == state {j} raised {type(e).__name__}")
-                return viol
-            res[i, j] = r
-            if n == r:
-                viol.append(f"(x != y) is not the negation of (x == y) for states {i},{j}")
-            exp = ref_eq(case, insts[i], insts[j])
-            if r != exp:
-                viol.append(f"state {i} == state {j} is {r}, attribute-wise reference comparison says {exp}")
+    for i, j in eq_pairs(case):
+        try:
+            r = insts[i] == insts[j]
+            n = insts[i] != insts[j]
+        except Exception as e:  # noqa: BLE001
+            viol.append(f"state {i} == state {j} raised {type(e).__name__}")
+            return viol
+        res[i, j] = r
+        if n == r:
+            viol.append(f"(x != y) is not the negation of (x == y) for states {i},{j}")
+        exp = ref_eq(case, insts[i], insts[j])
+        if r != exp:
+            viol.append(f"state {i} == state {j} is {r}, attribute-wise reference comparison says {exp}")
+        if res.get((j, i), r) != r:
+            viol.append(f"not symmetric: states {i},{j}")
     for i in eqs:
         if not res[i, i]:
             viol.append(f"not reflexive: state {i}")
@@ -750,7 +853,7 @@ def oracle(case):
             viol.append(f"states {b},{j} differ exactly in compared attribute {aname} but are equal")
         if not a["compare"] and not res[b, j]:
             viol.append(f"states {b},{j} differ only in compare=False attribute {aname} but are unequal")
-    for i in eqs:
+    for i in eqs + solo_states(case):
         try:
             c = copy.deepcopy(insts[i])
             if not (c == insts[i]):
@@ -761,7 +864,8 @@ def oracle(case):
             viol.append(f"deepcopy(state {i}) raised {type(e).__name__}")
         ok, same = reconstruct_real(case, ns, insts[i])
         if ok and not same:
-            viol.append(f"re-constructing state {i} from its own attribute values gives an unequal instance")
+            viol.append(f"re-constructing state {i} from its own attribute values gives an unequal instance: "
+                        + describe_reconstruction(case, insts[i]))
     # repr: never raises, lists exactly the repr-enabled attributes in declaration order
     for i, x in enumerate(insts):
         sk = repr_skeleton(case, x)
@@ -846,7 +950,7 @@ def gen_family(rng):
     strs = [a["name"] for a in S["attrs"] if a["name"] in ("s", "p") and a["init"]]
     if strs and rng.random() < 0.4:
         S["key"] = rng.choice(strs)
-    dnc = [a["name"] for a in S["attrs"] if a["name"] in MUTABLE and rng.random() < 0.2]
+    dnc = [a["name"] for a in S["attrs"] if a["name"] in DNC_OK and rng.random() < 0.2]
     if dnc:
         S["dnc"] = dnc
     classes = [S]
@@ -856,7 +960,7 @@ def gen_family(rng):
             a["inv"] = rng.choice([x["name"] for x in S["attrs"]])
             if a["kind"] == "none":
                 a.update(kind="lit", default=0, factory=False)
-    tdnc = [a["name"] for a in S["attrs"] + T["attrs"] if a["name"] in MUTABLE and rng.random() < 0.2]
+    tdnc = [a["name"] for a in S["attrs"] + T["attrs"] if a["name"] in DNC_OK and rng.random() < 0.2]
     if tdnc:
         T["dnc"] = tdnc
     if rng.random() < 0.3 and S["attrs"]:
@@ -868,15 +972,38 @@ def gen_family(rng):
     classes.append({"name": "P", "base": "S", "spec": False, "attrs": []})
     if rng.random() < 0.5:
         classes.append({"name": "Q", "base": "T", "spec": False, "attrs": []})
-    if rng.random() < 0.4:
+    if rng.random() < 0.5:
         extra = [n for n in BASE_ATTRS if n not in names]
-        classes.append({"name": "U", "base": "T", "spec": True, "eager": rng.random() < 0.3,
-                        "attrs": [gen_attr(rng, n) for n in rng.sample(extra, min(len(extra), rng.randint(0, 1)))]})
-        for a in classes[-1]["attrs"]:
+        U = {"name": "U", "base": "T", "spec": True, "eager": rng.random() < 0.3,
+             "attrs": [gen_attr(rng, n) for n in rng.sample(extra, min(len(extra), rng.randint(0, 2)))]}
+        for a in U["attrs"]:
             if a["name"] == "iv":
                 a["inv"] = rng.choice([x["name"] for x in S["attrs"]])
                 if a["kind"] == "none":
                     a.update(kind="lit", default=0, factory=False)
+        udnc = [a["name"] for a in S["attrs"] + T["attrs"] + U["attrs"] if a["name"] in DNC_OK and rng.random() < 0.2]
+        if udnc:
+            U["dnc"] = udnc
+        if rng.random() < 0.25 and (S["attrs"] or T["attrs"]):
+            # third level re-declares an attribute of the first or second level
+            b = rng.choice(S["attrs"] + T["attrs"])
+            if b["name"] != "iv" and b["name"] != S.get("key") and all(a["name"] != b["name"] for a in U["attrs"]):
+                U["attrs"].append(gen_attr(rng, b["name"], allow_missing=b["kind"] == "none"))
+        classes.append(U)
+    # a subclass (spec or plain, first, second or third level) re-assigns the DEFAULT of an inherited attribute in
+    # its body without annotating it: owner and flags stay, instances of that class (and below) show the new default
+    for c in classes[1:]:
+        if rng.random() < 0.3:
+            declared = {a["name"] for a in c["attrs"]}
+            fam = {"classes": classes}
+            cands = [a for a in attrs_of({"family": fam}, c["base"])
+                     if a["name"] not in declared and a["name"] not in ("iv",) and a["name"] != S.get("key")
+                     and len(POOL[a["name"]][2]) > 1]
+            if cands:
+                b = rng.choice(cands)
+                others = [d for d in POOL[b["name"]][2] if d != b.get("default", "NODEFAULT") or b.get("factory")]
+                if others:
+                    c["overrides"] = [{"name": b["name"], "default": rng.choice(others)}]
     return {"classes": classes}
 
 
@@ -895,9 +1022,38 @@ def gen_vals(rng, case, cname, p_missing=0.25):
     return vals
 
 
+def is_falsy(v):
+    return v is None or v == 0 or v == "" or v == [] or v == {"d": {}} or v == {"set": []}
+
+
+def gen_via(rng, names):
+    """How the init-enabled attributes of a state get their values: all through the constructor, all by setattr,
+    all by `with_<attr>`, or each one its own way."""
+    style = rng.choice(["ctor", "ctor", "set", "with", "mixed"])
+    if style == "ctor":
+        return {}
+    if style == "mixed":
+        return {n: rng.choice(["ctor", "set", "with"]) for n in names}
+    return {n: style for n in names}
+
+
+def gen_falsy_vals(rng, case, cname):
+    """Every attribute of the class at a FALSY value of its kind (0, False, "", None, empty list/dict/set/
+    KeyedList/KeyedSet) — preferably one that differs from the default; kinds without a falsy value get any value."""
+    vals = {}
+    for a in attrs_of(case, cname):
+        pool = POOL[a["name"]][1]
+        falsy = [v for v in pool if is_falsy(v)]
+        differing = [v for v in falsy if v != fresh_view(a)]
+        if rng.random() < 0.1:
+            continue
+        vals[a["name"]] = rng.choice(differing or falsy or pool)
+    return vals
+
+
 def gen_case(rng, tier):
     case = {"family": gen_family(rng), "states": []}
-    n_max = 12 if tier != "thorough" else 40
+    n_max = 14 if tier != "thorough" else 40
     cnames = [c["name"] for c in case["family"]["classes"]]
     base_vals = gen_vals(rng, case, "S", p_missing=0.15)
     states = [{"cls": "S", "vals": dict(base_vals)}]
@@ -911,17 +1067,18 @@ def gen_case(rng, tier):
             continue
         mv = dict(base_vals)
         mv[a["name"]] = rng.choice(pool)
-        states.append({"cls": "S", "vals": mv, "mutant_of": [0, a["name"]]})
+        states.append({"cls": "S", "vals": mv, "mutant_of": [0, a["name"]], "via": gen_via(rng, list(mv))})
     # the same values in every class of the family, then equal twins with different __dict__ contents
     for cn in cnames[1:]:
         v = {k: x for k, x in base_vals.items()}
-        states.append({"cls": cn, "vals": v})
+        states.append({"cls": cn, "vals": v, "via": gen_via(rng, list(v))})
     states.append({"cls": "S", "vals": dict(base_vals), "ops": [["tmp"], ["cp"]]})
     reset_ops = [["reset", a["name"]] for a in attrs_of(case, "S")[:2]]
-    states.append({"cls": "S", "vals": dict(base_vals), "ops": reset_ops})
+    states.append({"cls": "S", "vals": dict(base_vals), "ops": reset_ops, "via": gen_via(rng, list(base_vals))})
     while len(states) < n_max - 2:
         cn = rng.choice(cnames)
         st = {"cls": cn, "vals": gen_vals(rng, case, cn)}
+        st["via"] = gen_via(rng, list(st["vals"]))
         if rng.random() < 0.3:
             st["ops"] = [rng.choice([["tmp"], ["cp"], ["reset", rng.choice(attrs_of(case, cn))["name"]]])]
         if rng.random() < 0.15:
@@ -932,12 +1089,28 @@ def gen_case(rng, tier):
                     mv = dict(st["vals"])
                     mv[a["name"]] = rng.choice(pool)
                     states.append(st)
-                    states.append({"cls": cn, "vals": mv, "mutant_of": [len(states) - 1, a["name"]]})
+                    states.append({"cls": cn, "vals": mv, "mutant_of": [len(states) - 1, a["name"]],
+                                   "via": gen_via(rng, list(mv))})
                     st = None
                     break
         if st is not None:
             states.append(st)
     states = states[: n_max - 2]
+    # for EVERY class of the family (each inheritance depth, spec and plain): all attributes at falsy values, reached
+    # once through the constructor and once WITHOUT it (setattr / with_<attr>); outside the all-pairs matrix, the
+    # two are compared with each other, and deepcopy / re-construction / constructor / repr are checked on both
+    for cn in cnames:
+        v = gen_falsy_vals(rng, case, cn)
+        how = rng.choice(["set", "with"])
+        states.append({"cls": cn, "vals": v, "solo": True})
+        states.append({"cls": cn, "vals": dict(v), "solo": True, "twin_of": len(states) - 1,
+                       "via": {n: how for n in v}})
+    # ... and a random state of a random SUBCLASS reached without the constructor, with its constructor twin
+    for _ in range(2 if tier != "thorough" else 6):
+        cn = rng.choice(cnames[1:])
+        v = gen_vals(rng, case, cn, p_missing=0.1)
+        states.append({"cls": cn, "vals": v, "solo": True, "via": {n: rng.choice(["set", "with"]) for n in v}})
+        states.append({"cls": cn, "vals": dict(v), "solo": True, "twin_of": len(states) - 1})
     # self-referential states: repr only
     anyattrs = [a["name"] for a in attrs_of(case, "S") if a["name"] in ("cb", "cb2")]
     if anyattrs:
@@ -990,12 +1163,45 @@ def gen_cases(tier, rng):
         yield c
 
 
+def _refs(st):
+    """Indices of the other states a state refers to."""
+    out = []
+    if st.get("mutant_of") is not None:
+        out.append(st["mutant_of"][0])
+    if st.get("twin_of") is not None:
+        out.append(st["twin_of"])
+    for v in st["vals"].values():
+        if isinstance(v, dict) and "peer" in v:
+            out.append(v["peer"][0])
+        if isinstance(v, dict) and "peerlist" in v:
+            out += [i for i, _ in v["peerlist"]]
+    return out
+
+
+def _remap(st, f):
+    st = dict(st)
+    if st.get("mutant_of") is not None:
+        st["mutant_of"] = [f(st["mutant_of"][0]), st["mutant_of"][1]]
+    if st.get("twin_of") is not None:
+        st["twin_of"] = f(st["twin_of"])
+    vals = {}
+    for k, v in st["vals"].items():
+        if isinstance(v, dict) and "peer" in v:
+            v = {"peer": [f(v["peer"][0]), v["peer"][1]]}
+        elif isinstance(v, dict) and "peerlist" in v:
+            v = {"peerlist": [[f(i), m] for i, m in v["peerlist"]]}
+        vals[k] = v
+    st["vals"] = vals
+    return st
+
+
 def shrink(case, at=None):
-    for i in range(len(case["states"])):
-        if len(case["states"]) > 2:
-            st = [s for j, s in enumerate(case["states"]) if j != i]
-            if all(s.get("mutant_of") is None and not any(_is_peer(v) for v in s["vals"].values()) for s in st):
-                yield {**case, "states": st}
+    """Drop one state nobody refers to (indices of the remaining references are renumbered)."""
+    sts = case["states"]
+    referred = {r for st in sts for r in _refs(st)}
+    for i in reversed(range(len(sts))):
+        if len(sts) > 2 and i not in referred:
+            yield {**case, "states": [_remap(st, lambda j: j - (j > i)) for j2, st in enumerate(sts) if j2 != i]}
 
 
 def nontrivial(case, real):
@@ -1034,6 +1240,15 @@ def tags(case, real):
             t.append("state:single-position-mutant")
         if st.get("cyclic"):
             t.append("state:self-referential")
+        if st.get("twin_of") is not None:
+            t.append("state:route-twin")
+        if not st.get("cyclic"):
+            for n in ctor_kwargs(case, st):
+                how = st.get("via", {}).get(n, "ctor")
+                a = next(a for a in attrs_of(case, st["cls"]) if a["name"] == n)
+                inherited = a["owner"] != meta_of(case, st["cls"])
+                falsy = is_falsy(st["vals"][n]) and st["vals"][n] != fresh_view(a)
+                t.append(f"value-via:{how}:{'inherited' if inherited else 'own'}:{'falsy-non-default' if falsy else 'other'}")
         for v in st["vals"].values():
             if isinstance(v, dict):
                 t.append("value:" + next(iter(v)))
@@ -1041,7 +1256,7 @@ def tags(case, real):
 
 
 MANIFEST_ENTRY = {
-    "level_text": "Lean 4 proof about an executable model of EqMethod.eq under CPython's == dispatch, DeepCopyMethod.deepcopy, re-construction and ReprMethod.repr over finite value trees (scalars, lists, dicts, sets, nested instances, bound methods, functions, classes, modules, MISSING): == is reflexive, symmetric and transitive, holds exactly when the classes are the same and every compare-enabled attribute is equal (missing only equals missing; a pair of bound methods by function), a difference at ANY attribute position is noticed, compare=False attributes are ignored, deepcopy(x)==x, re-construction from own values gives an equal instance, repr is total and lists exactly the repr-enabled attributes in declaration order. The model is tied to /repo on every run: generated class families are exec'd, a pool of instances (incl. a single-position mutant for every attribute position, subclasses, extra __dict__ state, self-references) is built, and ==, deepcopy, re-construction and the parsed repr of ALL pairs/states are compared with the model; the oracle checks the equivalence laws and an attribute-wise reference comparison on the real results.",
+    "level_text": "Lean 4 proof about an executable model of EqMethod.eq under CPython's == dispatch, DeepCopyMethod.deepcopy, the constructor InitMethod.init (parent spec-class constructors base-most first with the forwarded keyword arguments, then the own attributes; any inheritance depth, plain subclasses, per-class defaults), re-construction through it and ReprMethod.repr over finite value trees (scalars, lists, dicts, sets, nested instances, bound methods, functions, classes, modules, MISSING): == is reflexive, symmetric and transitive, holds exactly when the classes are the same and every compare-enabled attribute is equal (missing only equals missing; a pair of bound methods by function), a difference at ANY attribute position is noticed, compare=False attributes are ignored, deepcopy(x)==x, the constructor shows every passed value (whatever it is - falsy ones included - and whichever class of the chain owns the attribute) and the default otherwise, re-construction from own values gives an equal instance, repr is total and lists exactly the repr-enabled attributes in declaration order. The model is tied to /repo on every run: generated class families are exec'd, a pool of instances (incl. a single-position mutant for every attribute position, subclasses, states reached through the constructor / setattr / with_<attr>, all-falsy states of every class, extra __dict__ state, self-references) is built, and ==, deepcopy, what the constructor shows for the keyword arguments of every state, re-construction and the parsed repr of ALL pairs/states are compared with the model; the oracle checks the equivalence laws and an attribute-wise reference comparison on the real results.",
     "level_note": "Trusted: Lean kernel; axioms propext/Classical.choice/Quot.sound only; the hand-written model and harness; CPython's == dispatch rule and its list/dict repr recursion guard. Equality theorems are about acyclic values (cyclic ones recurse in Python as for plain lists); repr covers self-references. The model's input states are the abstract states observed on the real instances.",
     "technique": "Lean 4 structural-induction proofs over a mutual value inductive; differential correspondence on all pairs of a generated state pool; independent reference comparison + equivalence-law oracle",
 }
